@@ -6,6 +6,7 @@ runs.  Oracle computed from the schedule alone (not from the implementation's ti
 """
 from hypothesis import strategies as st
 
+from vlib import corpus
 from vlib import refcodec as rc
 from vlib import session as ss
 from vlib.runner import hyp_run
@@ -40,6 +41,16 @@ def kas(sim, cid, since_t=None):
             except rc.WalkError:
                 out.append((t, -1, payload))
     return out
+
+
+def arrival_msg(kind, i):
+    """'K' KEEPALIVE, 'U' the small marked IPv4 UPDATE, 'U:<k>' well-formed UPDATE body k of vlib.corpus"""
+    if kind == 'K':
+        return rc.keepalive()
+    if kind.startswith('U:'):
+        bodies = corpus.update_bodies()
+        return rc.frame(rc.UPDATE, bodies[int(kind[2:]) % len(bodies)][1])
+    return ss.marked_update(i + 1)[0]
 
 
 def run_case(case):
@@ -109,7 +120,7 @@ def run_case(case):
             for i, (cls, kind, order) in enumerate(case['schedule'][:6]):
                 r.advance(240.0 * (i + 1))
                 r.settle(fire_due=True)
-                r.peer_send(c, rc.keepalive() if kind == 'K' else ss.marked_update(i + 1)[0])
+                r.peer_send(c, arrival_msg(kind, i))
                 r.settle(fire_due=True)
             r.advance(10 * 240.0)
             r.settle(fire_due=True)
@@ -130,7 +141,7 @@ def run_case(case):
                     out.append(('early-end:%s:gap=%s' % (sim.state, cls),
                                 'session left ESTABLISHED at t=%s before arrival %d (last arrival %s, H=%s)' % (r.now, i, last, H)))
                     return out + audit(sim, c, H, t_oc, r.now, None)
-                delivered = r.peer_send(c, rc.keepalive() if kind == 'K' else ss.marked_update(i + 1)[0])
+                delivered = r.peer_send(c, arrival_msg(kind, i))
                 r.settle(fire_due=True)
                 if not delivered or sim.state != 'ESTABLISHED':
                     out.append(('arrival-not-accepted:gap=%s:%s' % (cls, order),
@@ -194,7 +205,9 @@ def audit(sim, c, H, t_oc, end, dead_at):
 
 
 GAPS = ['H-e', 'H', 'H+e', 'H/3-e', 'H/3', 'H/3+e', '0', 'small', '2H/3', 'H/2']
-arrival = st.tuples(st.sampled_from(GAPS + ['H-e', 'H', '2H/3', 'H/2']), st.sampled_from(['K', 'U']),
+NBODIES = len(corpus.update_bodies())
+arrival = st.tuples(st.sampled_from(GAPS + ['H-e', 'H', '2H/3', 'H/2']),
+                    st.one_of(st.sampled_from(['K', 'U']), st.integers(0, NBODIES - 1).map(lambda k: 'U:%d' % k)),
                     st.sampled_from(['msg', 'timer'])).map(list)
 case_strategy = st.fixed_dictionaries({
     'conf': st.sampled_from(HOLDS), 'prop': st.sampled_from(HOLDS), 'conf_ka': st.sampled_from([60, 60, 1, 7, 600]),
@@ -235,6 +248,15 @@ def run_shard(spec, seed, col, tier):
                             col.case(case, nontrivial(case), labels=['grid', 'phase:' + phase])
                             for sig, detail in res:
                                 col.fail(sig, case, detail)
+        # every kind of well-formed UPDATE alone keeps a session alive (arrivals at 2H/3 for three hold times)
+        for k in range(NBODIES):
+            for conf in (9, 180):
+                case = {'conf': conf, 'prop': conf, 'phase': 'est', 'eps': 0.001, 'schedule': [['2H/3', 'U:%d' % k, 'msg']] * 5,
+                        'conf_ka': 60, 'ka_delay': '0'}
+                res = run_case(case)
+                col.case(case, True, labels=['grid-update-kinds'])
+                for sig, detail in res:
+                    col.fail(sig, case, detail)
         return
 
     def body(case):
